@@ -166,6 +166,24 @@ EXTRA2 = {
 for pid, (t, x) in EXTRA2.items():
     CLAIMED[pid]['technique'] += t
     CLAIMED[pid]['text'] += x
+# Round-7 additions (DESIGN.md §12.7)
+EXTRA3 = {
+ 'C03': ('; freshness of the role list the check searches (every list the reader returns is allocated by it in the call)',
+         ' The role list examined by the check is decoded in the call from the account\'s stored bytes: a list remembered on the handler (which the set-role function appends to) is reported.'),
+ 'C07': ('; who-may-write rule for the counter key (only below ESDTNFTCreate and ESDTNFTCreateRoleTransfer)',
+         ' Nothing but create and the hand-over writes the counter entry.'),
+ 'C08': ('; the destination\'s own entry saved back under a key with a nonce part must have taken over the arriving TokenMetaData (dominating field store)',
+         ' A credit that tops up the destination\'s existing NFT entry instead of storing the arriving one is reported unless it takes the arriving metadata over (equal hashes do not mean equal URIs / attributes).'),
+ 'C15': ('; who-may-write rule for the counter key and the create-side counter rule (shared with C07-R5 / C07-R1)',
+         ' The counter entry is written only by create (stored counter + 1, read from the account) and by the hand-over.'),
+ 'C19': ('; lockset extended to state-holding fields touched through methods called on their address (sync/atomic values, sync.Map, the module\'s atomic wrappers): written under the lock somewhere => guarded; an atomic write outside every critical section is reported, lock-free atomic reads are accepted',
+         ' A cache published beside the map (atomic snapshot) must be written inside a critical section of the map\'s mutex: a publication after the unlock races with the invalidation made under the write lock.'),
+ 'C20': ('; loop obligation for the storage-update merge (every turn of the loop over the merged-in updates passes the store of that turn\'s key and update; no delete on an update map below the merge)',
+         ' Later storage updates win: no update of the merged-in account is skipped (an update with empty data is a deletion the node must see) and nothing is removed from the result\'s map.'),
+}
+for pid, (t, x) in EXTRA3.items():
+    CLAIMED[pid]['technique'] += t
+    CLAIMED[pid]['text'] += x
 NA = {}
 for i in range(1, 21):
     pid = 'C%02d' % i
